@@ -42,6 +42,7 @@ class Proxy:
         CLOCK[0] = ticks / 10000.0      # correctly rounded float of k/10000
 
     def viewer_sends(self, data, budget=5.0):
+        self._v0 = len(self.to_viewer)
         n0 = len(self.to_server)
         r0 = len(self.rec)
         exc = None
@@ -53,7 +54,14 @@ class Proxy:
         fwd = b"".join(t[1] for t in self.to_server[n0:] if t[0] == "write")
         return fwd, self.rec[r0:], exc
 
+    def foreign(self, direction):
+        """bytes the proxy wrote on the leg the current chunk did NOT come from (it must originate nothing)"""
+        if direction == "v":
+            return b"".join(t[1] for t in self.to_viewer[getattr(self, "_v0", 0):] if t[0] == "write")
+        return b"".join(t[1] for t in self.to_server[getattr(self, "_s0", 0):] if t[0] == "write")
+
     def server_sends(self, data, budget=5.0):
+        self._s0 = len(self.to_server)
         n0 = len(self.to_viewer)
         exc = None
         try:
@@ -115,7 +123,7 @@ def gen_viewer_messages(r, n, keys=None, allow_unrecordable=False, kinds=None):
         elif k == "fbur":
             out.append((struct.pack("!BBHHHH", 3, r.randrange(2), 0, 0, r.randrange(65536), r.randrange(65536)), ("other",)))
         elif k == "cut":
-            t = bytes(r.randrange(256) for _ in range(r.choice([0, 0, 1, 5, 5000, 5000, 70000, 200000])))
+            t = bytes(r.randrange(256) for _ in range(r.choice([0, 0, 1, 5, 5000, 5000, 70000, 200000, 262145, 300000])))
             out.append((struct.pack("!BxxxI", 6, len(t)) + t, ("other",)))
         elif k == "qemu":
             ks = r.choice(keys or KEYSYMS)
